@@ -174,14 +174,23 @@ fn run_worker(bin: &str, shim: &str, values: &[(u8, String)], ns: bool) -> Resul
         c.args(["-c", SCRIPT, "cbv-c19", bin]).env("CBV_NS", "0");
         c
     };
-    let mut child = cmd.env("CBV_SHIM", shim).stdin(Stdio::piped()).stdout(Stdio::piped()).stderr(Stdio::null()).spawn().map_err(|e| format!("cannot start worker: {e}"))?;
+    // the values go through a file, not a pipe: with both directions on pipes the worker blocks on a full stdout while
+    // this side is still blocked writing its stdin (it happened once the thorough alphabet outgrew the pipe buffers)
+    static SEQ: std::sync::atomic::AtomicUsize = std::sync::atomic::AtomicUsize::new(0);
+    let sdir = std::path::Path::new("/dev/shm").join(format!("cbv-{}", std::process::id()));
+    let _ = std::fs::create_dir_all(&sdir);
+    let list = sdir.join(format!("c19-values-{}.txt", SEQ.fetch_add(1, std::sync::atomic::Ordering::SeqCst)));
     {
-        let mut sin = child.stdin.take().unwrap();
+        let mut f = std::fs::File::create(&list).map_err(|e| e.to_string())?;
         for (c, v) in values {
-            writeln!(sin, "{c} {v}").map_err(|e| e.to_string())?;
+            writeln!(f, "{c} {v}").map_err(|e| e.to_string())?;
         }
     }
-    let out = child.wait_with_output().map_err(|e| e.to_string())?;
+    let input = std::fs::File::open(&list).map_err(|e| e.to_string())?;
+    let child = cmd.env("CBV_SHIM", shim).stdin(Stdio::from(input)).stdout(Stdio::piped()).stderr(Stdio::null()).spawn().map_err(|e| format!("cannot start worker: {e}"))?;
+    let out = child.wait_with_output().map_err(|e| e.to_string());
+    let _ = std::fs::remove_file(&list);
+    let out = out?;
     let text = String::from_utf8_lossy(&out.stdout).to_string();
     if text.contains("SETUP-FAILED") {
         return Err("cannot mount a private /run".into());
